@@ -5,6 +5,7 @@
 package c16
 
 import (
+	"bytes"
 	"context"
 	"encoding/json"
 	"errors"
@@ -114,8 +115,11 @@ func TestC16(t *testing.T) {
 		for i := 0; i < r.N(20, 200); i++ {
 			realClientCancel(t, r, i)
 		}
+		for i := 0; i < r.N(60, 600); i++ {
+			slowCacheWrites(t, r, i)
+		}
 	}
-	r.Require("lookups_disabled_cases", "lookups_enabled_cases", "shared_flights", "failed_lookups", "hang_bounded_callers", "retry_after_foreign_cancel", "successful_lookups", "stress_lookups", "cases_with_failing_cache", "handles_followed_a_later_poll", "real_client_cancel_cases")
+	r.Require("lookups_disabled_cases", "lookups_enabled_cases", "shared_flights", "failed_lookups", "hang_bounded_callers", "retry_after_foreign_cancel", "successful_lookups", "stress_lookups", "cases_with_failing_cache", "handles_followed_a_later_poll", "real_client_cancel_cases", "overlapping_cache_writes")
 	r.Rule("seeded cases: AllowLookup on/off; 1-2 undeclared names each with a service mode (ok, slow D, fail, fail-then-ok, hang for ever, not found) and 1-6 callers (LookupSecret / NewUpdater / Fields.Apply) with start offsets and contexts (background, deadline 1 s/1 min/10 min, cancelled at a random instant). Distinct = (AllowLookup, service mode, number of callers, set of context kinds, set of caller outcomes)")
 }
 
@@ -681,4 +685,93 @@ func (s swapClient) Get(ctx context.Context, name string) (*api.SecretValue, err
 }
 func (s swapClient) GetIfChanged(ctx context.Context, name string, v api.SecretVersion) (*api.SecretValue, error) {
 	return s.cur().GetIfChanged(ctx, name, v)
+}
+
+// slowCacheWrites: the cache is slow for ONE write (it completes only after another write has landed, or
+// after 60 ms if no other write can start meanwhile) while lookups of DIFFERENT names and a poll
+// that brings a new version overlap. Once everything has returned, the cache - what a restart during an
+// outage would start from - must hold every looked-up secret and the newest polled version.
+func slowCacheWrites(t *testing.T, r *evid.Run, idx int) {
+	rng := r.Rand(uint64(9_000_000 + idx))
+	r.Eval(1)
+	// (real time: a goroutine waiting for the store's mutex is not durably blocked, so a bubble's clock
+	// could not advance past the slow write)
+	func() {
+		svc := fakesvc.New()
+		svc.Set("known", 1, []byte("known#1"))
+		lookups := []string{"la", "lb", "lc"}[:2+rng.IntN(2)]
+		for _, n := range lookups {
+			svc.Set(n, 1, value(n))
+		}
+		cache := &fakesvc.MonCache{}
+		st, err := setec.NewStore(context.Background(), setec.StoreConfig{Client: svc, Secrets: []string{"known"}, AllowLookup: true,
+			Cache: cache, PollInterval: -1, Logf: func(string, ...any) {}})
+		if err != nil {
+			t.Fatalf("NewStore: %v", err)
+		}
+		defer st.Close()
+		slowAt := rng.IntN(2) // which of the coming writes is the slow one
+		var calls atomic.Int32
+		cache.OnWrite = func(n int, data []byte) {
+			if int(calls.Add(1))-1 != slowAt {
+				return
+			}
+			base := cache.NumWrites()
+			for i := 0; i < 60 && cache.NumWrites() == base; i++ {
+				time.Sleep(time.Millisecond)
+			}
+		}
+		withPoll := rng.IntN(2) == 0
+		var wg sync.WaitGroup
+		errs := make([]error, len(lookups))
+		for i, n := range lookups {
+			wg.Add(1)
+			go func() {
+				defer wg.Done()
+				time.Sleep(time.Duration(i) * time.Millisecond) // a definite order of arrival
+				_, errs[i] = st.LookupSecret(context.Background(), n)
+			}()
+		}
+		var perr error
+		if withPoll {
+			svc.Set("known", 2, []byte("known#2"))
+			wg.Add(1)
+			go func() {
+				defer wg.Done()
+				time.Sleep(time.Duration(1+rng.IntN(3)) * time.Millisecond)
+				perr = st.Refresh(context.Background())
+			}()
+		}
+		wg.Wait()
+		r.Count("overlapping_cache_writes", 1)
+		r.Distinct(fmt.Sprintf("slow cache write #%d lookups=%d poll=%t", slowAt, len(lookups), withPoll))
+		for i, e := range errs {
+			if e != nil {
+				r.Violation("lookup-fails", idx, fmt.Sprintf("slow-cache case %d: lookup of %q failed: %v", idx, lookups[i], e), nil)
+				return
+			}
+		}
+		if perr != nil {
+			r.Violation("poll-fails", idx, fmt.Sprintf("slow-cache case %d: %v", idx, perr), nil)
+			return
+		}
+		var doc map[string]struct {
+			Secret *api.SecretValue `json:"secret"`
+		}
+		if err := json.Unmarshal(cache.Last(), &doc); err != nil {
+			r.Violation("cache-unreadable", idx, err.Error(), nil)
+			return
+		}
+		for _, n := range lookups {
+			if e, ok := doc[n]; !ok || e.Secret == nil || !bytes.Equal(e.Secret.Value, value(n)) {
+				r.Violation("looked-up-secret-not-cached", idx, fmt.Sprintf("slow-cache case %d: every lookup of %v succeeded and all cache writes have ended, but the cache lacks %q: %s", idx, lookups, n, cache.Last()), nil)
+				return
+			}
+		}
+		if withPoll {
+			if e := doc["known"]; e.Secret == nil || e.Secret.Version != 2 {
+				r.Violation("cache-older-than-store", idx, fmt.Sprintf("slow-cache case %d: the poll brought version 2 of \"known\" and ended without error, but the cache holds %s", idx, cache.Last()), nil)
+			}
+		}
+	}()
 }
